@@ -55,6 +55,9 @@ fn table(kind: KsfKind, default_spec: &KsfSpec) -> Vec<(String, Option<KsfSpec>)
             ("H2".into(), Some(KsfSpec::H(2))),
             ("argon2-default".into(), Some(KsfSpec::Argon2Default)),
             ("argon2-m16-t2".into(), Some(KsfSpec::Argon2 { m_kib: 16, t: 2, p: 1 })),
+            // same costs, another algorithm / a secret: different functions
+            ("argon2i-m16-t2".into(), Some(KsfSpec::Argon2Ex { alg: 1, v10: false, m_kib: 16, t: 2, p: 1, secret: 0 })),
+            ("argon2id-m16-t2-pepper".into(), Some(KsfSpec::Argon2Ex { alg: 2, v10: false, m_kib: 16, t: 2, p: 1, secret: 1 })),
         ],
         KsfKind::RealIdentity => vec![("absent".into(), None), ("explicit-default".into(), Some(KsfSpec::Identity))],
         KsfKind::RealArgon2 => vec![
@@ -62,6 +65,12 @@ fn table(kind: KsfKind, default_spec: &KsfSpec) -> Vec<(String, Option<KsfSpec>)
             ("explicit-default".into(), Some(KsfSpec::Argon2Default)),
             ("argon2-m16-t1".into(), Some(KsfSpec::Argon2 { m_kib: 16, t: 1, p: 1 })),
             ("argon2-m24-t2".into(), Some(KsfSpec::Argon2 { m_kib: 24, t: 2, p: 1 })),
+            // equal costs, but another algorithm, version or secret: different functions
+            ("argon2i-m16-t1".into(), Some(KsfSpec::Argon2Ex { alg: 1, v10: false, m_kib: 16, t: 1, p: 1, secret: 0 })),
+            ("argon2d-m16-t1".into(), Some(KsfSpec::Argon2Ex { alg: 0, v10: false, m_kib: 16, t: 1, p: 1, secret: 0 })),
+            ("argon2id-v10-m16-t1".into(), Some(KsfSpec::Argon2Ex { alg: 2, v10: true, m_kib: 16, t: 1, p: 1, secret: 0 })),
+            ("argon2id-m16-t1-pepper1".into(), Some(KsfSpec::Argon2Ex { alg: 2, v10: false, m_kib: 16, t: 1, p: 1, secret: 1 })),
+            ("argon2id-m16-t1-pepper2".into(), Some(KsfSpec::Argon2Ex { alg: 2, v10: false, m_kib: 16, t: 1, p: 1, secret: 2 })),
         ],
     }
 }
@@ -246,7 +255,7 @@ pub fn check(s: &'static dyn Proto, c: &Case, st: &mut Stats, _k: &KnownFindings
 }
 
 pub const BUDGET: Budget = Budget {
-    quick: (12, 8, 4),
+    quick: (8, 5, 3),
     thorough: (40, 15, 5),
     shrink: 8,
 };
@@ -256,7 +265,7 @@ pub fn run(cfg: &RunCfg) -> (Outcome, EvidenceExtra) {
     suites.extend(crate::suites::real_ksf_suites());
     let out = run_property(cfg, "C15", suites, BUDGET, strategy, check);
     let ev = EvidenceExtra {
-        rule: "case = (password, credential id, context, the suite's default KSF instance, tapes); inside a case the full table {absent, explicit default, H1, H2, Argon2 default, Argon2 m=16 t=2} x itself (registration KSF, login KSF) is enumerated (real Identity/Argon2 suites: their own instance tables). Oracle from the journalling Ksf implementation: exactly one hash call per client finish and none elsewhere, on the passed instance when one is passed and on the default otherwise, with input = OPRF output computed by the reference; same function => login succeeds with the registration's export key, different => exactly InvalidLoginError; equivalent spellings give byte-identical uploads on equal tapes, different functions change masking key, client key, envelope tag and export key; a KSF that fails on call n makes that finish step return LibraryError(KsfError) and nothing else (n = 1 registration, 2 login, 3 control). evaluation = one table cell or relation; all cases non-trivial (non-Identity KSFs and faults in every case); distinct by hash".into(),
+        rule: "case = (password, credential id, context, the suite's default KSF instance, tapes); inside a case the full table {absent, explicit default, H1, H2, Argon2 default, Argon2id m=16 t=2, Argon2i with the same costs, Argon2id with the same costs and a secret} x itself (registration KSF, login KSF) is enumerated (real Identity/Argon2 suites: their own instance tables; the real-Argon2 table holds 9 instances incl. equal-cost Argon2i/Argon2d/version 0x10/two secrets). Oracle from the journalling Ksf implementation: exactly one hash call per client finish and none elsewhere, on the passed instance when one is passed and on the default otherwise, with input = OPRF output computed by the reference; same function => login succeeds with the registration's export key, different => exactly InvalidLoginError; equivalent spellings give byte-identical uploads on equal tapes, different functions change masking key, client key, envelope tag and export key; a KSF that fails on call n makes that finish step return LibraryError(KsfError) and nothing else (n = 1 registration, 2 login, 3 control). evaluation = one table cell or relation; all cases non-trivial (non-Identity KSFs and faults in every case); distinct by hash".into(),
         assumptions: vec!["the 6x6 table is exhaustive per input".into()],
         exhaustive: Some(false),
         extra: Default::default(),
